@@ -590,7 +590,7 @@ Alphabets == [
     cond   |-> [un |-> <<"Not">>, bin |-> <<"And", "Or">>, ter |-> <<"IfExp">>, consts |-> <<>>, names |-> Names3],
     \* generator shells (x, y: loop variables)
     gen    |-> [un |-> <<"Not">>, bin |-> <<"And", "Or", "Eq">>, ter |-> <<"IfExp">>, consts |-> <<>>, names |-> GenNames],
-    gencond |-> [un |-> <<"Not">>, bin |-> <<"And", "Or">>, ter |-> <<"IfExp">>, consts |-> <<>>, names |-> GenNames],
+    gencond |-> [un |-> <<"Not">>, bin |-> <<"And", "Or">>, ter |-> <<"IfExp">>, consts |-> <<>>, names |-> <<"x", "a">>],
     \* one binary operator of every precedence level, unary operators, conditional expression (C04 thorough, depth 3)
     prec   |-> [un |-> <<"Not", "USub">>, bin |-> <<"Or", "And", "Lt", "BitOr", "BitXor", "BitAnd", "LShift", "Sub", "FloorDiv", "Pow">>,
                 ter |-> <<"IfExp">>, consts |-> <<>>, names |-> Names3],
